@@ -16,8 +16,10 @@ REGISTRY = {
     'C09': ('checks.batch', 'c09'),
     'C10': ('checks.tee', 'c10'),
     'C11': ('checks.lifecycle', 'c11'),
+    'C12': ('checks.proc', 'c12'),
     'C16': ('checks.streams', 'c16'),
     'C17': ('checks.iterqueue', 'c17'),
+    'C20': ('checks.proc', 'c20'),
 }
 
 
